@@ -1,4 +1,4 @@
-import IwModel.Lemmas.Exf
+import IwModel.Lemmas.ExfDiverge
 /-! # C12 — reads through the extensible file return the bytes last written
 
 Property theorems only; definitions of the model are in `IwModel/Model/Exf.lean` (mirrors
@@ -166,6 +166,222 @@ theorem reopen_size_partial (st : St) (ops : List Op) (pol : Policy) (maxoff : N
   rw [hinv.1]
   simp [hsz.2.1]
 
+/-! ### The size the next open sees, at full strength (no hypothesis on copies) -/
+
+/-- **The size on disk after one call, exactly** (shared windows, any call). When the logical size changed, the
+    disk has exactly the new logical size; otherwise the length on disk is unchanged, with one exception — finding
+    C12-COPYEXT, characterised by `copyDisk`: a non-empty copy whose source *starts* inside the file on disk and whose
+    destination lies behind the whole source range leaves the disk `max (old length) (noff + siz)` bytes long (the chunk
+    loop of `iwp_copy_bytes` reads short at the old end once and then reads the bytes it appended itself), which
+    is beyond `fsize` whenever `noff + siz > fsize`. The disk is never shorter than the logical size. -/
+theorem disk_size_step (st : St) (op : Op) (hp : 0 < st.psize) (hs : AllShared st.slots) (hi : DInv st) :
+    DInv (exec st op).1 ∧ (exec st op).1.file.length = stepDisk st op (exec st op).1.fsize := by
+  rw [exec_eq_flat st op hs]
+  exact flatExec_disk st op hp hi
+
+/-- the exception spelled out: the copy of finding C12-COPYEXT makes the disk longer than the logical size exactly when
+    it is non-empty, starts inside the disk file, goes behind its source, and ends beyond the old length -/
+theorem copy_extends_disk_iff (st : St) (off siz noff : Nat) (hp : 0 < st.psize) (hs : AllShared st.slots) (hi : DInv st) :
+    (exec st (.copy off siz noff)).1.file.length > st.file.length ↔
+      0 < st.cbuf ∧ 0 < siz ∧ off < st.file.length ∧ off + siz ≤ noff ∧ st.file.length < noff + siz := by
+  have h := (disk_size_step st (.copy off siz noff) hp hs hi).2
+  have hf : (exec st (.copy off siz noff)).1.fsize = st.fsize := by
+    have := copy_core st off siz noff
+    simp only [core, Prod.mk.injEq] at this
+    exact this.2.1
+  rw [h, hf]
+  simp only [stepDisk, if_true, copyDisk]
+  split
+  · rename_i hc; constructor
+    · intro hgt; exact ⟨hc.1, hc.2.1, hc.2.2.1, hc.2.2.2, by omega⟩
+    · intro hx; omega
+  · rename_i hc; constructor
+    · intro hgt; omega
+    · intro hx; exact absurd ⟨hx.1, hx.2.1, hx.2.2.1, hx.2.2.2.1⟩ hc
+
+/-- **What the next open sees (full strength).** Along *every* history with shared windows — copies that end beyond
+    the logical size included — the disk is at least `fsize` long and the windows are mapped as far as `fsize` reaches; closing
+    and opening again (any policy, any `maxoff`, no initial size) makes the length on disk, rounded up to a page, the
+    new logical size, keeps the bytes and zero-fills the rest of the last page; the open fails (`maxoff`) exactly when that
+    rounding is needed and passes the new `maxoff`. The reopened file has disk size = logical size again. -/
+theorem reopen_size (st : St) (ops : List Op) (pol : Policy) (maxoff : Nat) (hz : SizeInv st)
+    (hs : AllShared st.slots) (hops : ∀ op ∈ ops, op.shared) (hi : DInv st) :
+    let s := (run st ops).1
+    let L := roundUp s.file.length s.psize
+    let r := openFile (close s) pol maxoff 0 false
+    DInv s ∧
+    r.1 = (if s.file.length % s.psize ≠ 0 ∧ openMaxoff s.psize maxoff ≠ 0 ∧ L > openMaxoff s.psize maxoff
+           then .maxoff else .ok) ∧
+    (r.1 = .ok → r.2.fsize = L ∧ r.2.file = resize s.file L ∧ Inv r.2) := by
+  simp only []
+  have hd : DInv (run st ops).1 := by
+    rw [run_eq_flatRun ops st hs hops]; exact flatRun_dinv ops st hz.1 hs hops hi
+  have hsz := run_sizeInv ops st hz
+  generalize (run st ops).1 = s at hd hsz
+  have ho := openFile_size s pol maxoff hsz.1
+  simp only [] at ho
+  refine ⟨hd, ho.1, ?_⟩
+  intro hok
+  obtain ⟨h1, h2, _, h4⟩ := ho.2 hok
+  refine ⟨h1, h2, ?_, ?_⟩
+  · rw [h2, h1, length_resize]
+  · intro x hx; rw [h4] at hx; simp at hx
+
+/-- the next open reports the size the file had exactly when the disk was not longer than the logical size -/
+theorem reopen_same_size_iff (s : St) (hz : SizeInv s) (hd : DInv s) :
+    roundUp s.file.length s.psize = s.fsize ↔ s.file.length = s.fsize := by
+  constructor
+  · intro h
+    have := roundUp_ge s.file.length s.psize hz.1
+    have := hd.1
+    omega
+  · intro h; rw [h]; exact roundUp_of_mod _ _ hz.1 hz.2.1
+
+/-! ### Resize policies -/
+
+/-- **`ensure_size` reaches every request `maxoff` admits.** On a state with aligned sizes, a request that is not beyond a
+    configured `maxoff` and for which the policy's proposal *fits* (holds the request, page aligned — `policy_fits` says when)
+    succeeds, and afterwards the file holds the request, is still aligned and within `maxoff`, and has not shrunk. In
+    particular a proposal beyond `maxoff` is cut down to `maxoff`, not refused (the clamp a seeded change broke). -/
+theorem ensure_reaches_request (st : St) (sz : Nat) (hz : SizeInv st) (hmo : st.maxoff % st.psize = 0)
+    (hmax : st.maxoff = 0 ∨ sz ≤ st.maxoff) (hf : Fits st sz) :
+    (ensureSize st sz).1 = .ok ∧ sz ≤ (ensureSize st sz).2.fsize ∧ st.fsize ≤ (ensureSize st sz).2.fsize ∧
+    SizeInv (ensureSize st sz).2 ∧
+    (st.fsize < sz → (ensureSize st sz).2.fsize = target st sz) := by
+  have h := ensureSize_reaches st sz hz hmo hmax hf
+  refine ⟨h.1, h.2, ensureSize_fsize_mono st sz hz.1, ensureSize_sizeInv st sz hz, ?_⟩
+  intro hlt
+  rw [ensureSize_grow st sz hz.1 hmo hlt hmax hf]
+
+/-- and a request beyond a configured `maxoff` is refused without changing the size -/
+theorem ensure_beyond_maxoff_fails (st : St) (sz : Nat) (hz : SizeInv st) (hm : st.maxoff ≠ 0) (hgt : st.maxoff < sz) :
+    (ensureSize st sz).1 ≠ .ok ∧ (ensureSize st sz).2.fsize = st.fsize := by
+  have hlt : st.fsize < sz := by have := hz.2.2 hm; omega
+  have hne : (ensureSize st sz).1 ≠ .ok := by
+    intro hok
+    have h1 := ensureSize_ok_ge st sz hz.1 hok
+    have h2 := (ensureSize_sizeInv st sz hz).2.2
+    rw [(ensureSize_psize st sz).2.1] at h2
+    have := h2 hm
+    omega
+  refine ⟨hne, ?_⟩
+  rcases ensureSize_cases st sz with ⟨h0, _⟩ | ⟨_, e | e | ⟨T, hT, e, hTeq, _⟩⟩
+  · omega
+  · rw [e]
+  · rw [e]
+  · exfalso
+    rw [e] at hne
+    rcases truncate_cases { st with prev := (policy st.psize st.pol st.prev sz st.fsize).2 } T with
+      ⟨e2, he⟩ | ⟨e2, _⟩ | ⟨e2, _, hg⟩
+    · rw [e2] at hne; exact hne rfl
+    · have hT' : T ≤ st.maxoff := by rw [hTeq]; split <;> omega
+      omega
+    · rw [e2] at hne; exact hne rfl
+
+/-- **When the policies fit.** The default policy always does; the Fibonacci policy whenever its sum is representable (and
+    then proposes at least current + previous size); the multiplier policy `n/d` (`d > 0`, `n ≥ d`) exactly when
+    `request / d * n`, rounded up to a page, still holds the request — it multiplies the request with truncating division
+    first, so e.g. `n = d` with a request that `d` does not divide, or a request smaller than `d`, is refused with `policy`
+    unless page rounding rescues it; multiples of `d` always fit. -/
+theorem policy_fits (st : St) (sz : Nat) (hp : 0 < st.psize) :
+    (st.pol = .dflt → Fits st sz) ∧
+    (st.pol = .fibo → roundUp (max (st.fsize + st.prev) sz) st.psize ≤ offTMax →
+      Fits st sz ∧ st.fsize + st.prev ≤ proposal st sz) ∧
+    (∀ n d, st.pol = .mul n d → 0 < d → d ≤ n → roundUp (sz / d * n) st.psize ≤ offTMax →
+      (Fits st sz ↔ sz ≤ roundUp (sz / d * n) st.psize) ∧ (sz % d = 0 → Fits st sz)) :=
+  ⟨fits_dflt st sz hp, fits_fibo st sz hp,
+   fun n d hpol hd hn hb => ⟨fits_mul_iff st sz n d hpol hd hn hb, fits_mul_of_dvd st sz n d hp hpol hd hn hb⟩⟩
+
+/-- **Growth sequences.** For every policy and every sequence of `ensure_size` requests (failed ones included) the sizes
+    never decrease, stay page aligned and never exceed a configured `maxoff`. -/
+theorem resize_sequence (st : St) (rs : List Nat) (hz : SizeInv st) :
+    Ascending st.fsize (ensureSeq st rs) ∧
+    ∀ x ∈ ensureSeq st rs, x.2 % st.psize = 0 ∧ (st.maxoff ≠ 0 → x.2 ≤ st.maxoff) :=
+  ensureSeq_inv rs st hz
+
+/-- **The Fibonacci sequence reaches every request up to `maxoff`.** With a configured `maxoff` that leaves head-room below
+    `OFF_T_MAX` (`2·maxoff + page ≤ 2^63-1`), every request `≤ maxoff` of a sequence succeeds and is held by the size
+    afterwards; each growing step takes `min maxoff (round_up (max (current + previous) request))`. -/
+theorem fibo_sequence_reaches (st : St) (rs : List Nat) (hz : SizeInv st) (hpol : st.pol = .fibo) (hr : FiboRoom st)
+    (hreq : ∀ r ∈ rs, r ≤ st.maxoff) :
+    AllReached rs (ensureSeq st rs) ∧
+    ∀ sz, sz ≤ st.maxoff → st.fsize < sz →
+      (ensureSize st sz).2.fsize = min st.maxoff (roundUp (max (st.fsize + st.prev) sz) st.psize) :=
+  ⟨ensureSeq_fibo rs st hz hpol hr hreq, fun sz h1 h2 => (ensureSize_fibo_step st sz hz hpol hr h1).2.2.2 h2⟩
+
+/-- non-vacuity: a Fibonacci file of 2 pages (previous size 1 page) under `maxoff` = 8 pages; the request for 5 pages is cut
+    to … 3 pages would not hold it, so the policy takes 5; the next request for 8 pages gets `maxoff` -/
+example :
+    let st : St := { psize := 4, cbuf := 4, isOpen := true, fsize := 8, file := zeros 8, maxoff := 32, pol := .fibo, prev := 4 }
+    SizeInv st ∧ FiboRoom st ∧ ensureSeq st [20, 32] = [(.ok, 20), (.ok, 32)] := by
+  refine ⟨⟨by decide, by decide, by decide⟩, ⟨by decide, by decide, by decide, by decide⟩, by decide⟩
+
+/-- non-vacuity of `ensure_reaches_request`: multiplier 3/2, request 10 → `10 / 2 * 3 = 15` → 16, within `maxoff` 32 -/
+example :
+    let st : St := { psize := 4, cbuf := 4, isOpen := true, fsize := 8, file := zeros 8, maxoff := 32, pol := .mul 3 2 }
+    SizeInv st ∧ Fits st 10 ∧ (ensureSize st 10).2.fsize = 16 := by
+  refine ⟨⟨by decide, by decide, by decide⟩, ⟨by decide, by decide⟩, by decide⟩
+
+/-! ### Private (copy-on-write) windows, any number of them: the two-layer reference
+
+Reference (`Lemmas/ExfPriv.lean`, `ExfLay.lean`): the state has two layers — the file array and, per private window, the pages
+copied on write (`cow`, `ovl`). `view` is the byte a reader sees: the overlay byte of the private window that holds it, else the
+file byte. `layRead` reads byte by byte through the view; `layWrite` grows the file as `_exfile_write` does and then gives each
+private window the part of the request that lies in its mapped range (`clip`, copy-on-write of the touched pages) and writes
+every other byte into the file (`layFile`); nothing is split into pieces. All other calls act on one layer or one window
+already: sizes and window management, the store through one mapping, the copy inside the first window, and the copy through
+the file, which moves *file* bytes only. -/
+
+/-- what every history keeps, private windows included: sizes aligned and within `maxoff`; windows ascending, disjoint,
+    non-empty, mapped as far as the file reaches; window offsets and lengths page aligned; the disk at least `fsize` long -/
+theorem private_inv (st : St) (ops : List Op) (h : PInv st) : PInv (run st ops).1 := run_PInv ops st h
+
+/-- **Histories with private windows refine the two-layer reference**: every history (write / read / copy / truncate /
+    ensure_size / add private or shared window / remove window / store through a mapping / remap_all, failed calls included)
+    gives exactly the results and the final state of the two-layer machine `layRun`, which does no request splitting. -/
+theorem private_refines_two_layer (st : St) (ops : List Op) (h : PInv st) : run st ops = layRun st ops :=
+  run_eq_layRun ops st h
+
+/-- a read is the view, byte by byte, clipped at the logical size -/
+theorem read_is_view (st : St) (off : Int) (n : Nat) (h : PInv st) :
+    read st off n =
+      if off < 0 ∨ off + n > offTMax then (.oob, [])
+      else (.ok, (List.range (min n (st.fsize - off.toNat))).map fun k => view st.psize st.file st.slots (off.toNat + k)) :=
+  read_eq_lay st off n h.win h.disk
+
+/-- **Read after write, at full strength** (replaces `private_read_after_write_partial`): with any number of private and shared
+    windows, any range (straddling windows or not), with or without growth, a successful write is read back exactly. -/
+theorem private_read_after_write (st : St) (off : Int) (d : Bytes) (h : PInv st) (hok : (write st off d).1 = .ok) :
+    read (write st off d).2.2 off d.length = (.ok, d) :=
+  read_after_write_priv st off d h hok
+
+/-- **When a read differs from the flat array — exactly** (finding C12-PRIV). Let `v` be the bytes readers see before a call and
+    `expect st op v` the flat-array meaning of the call (write / store put their bytes, copy moves what readers saw, everything
+    else leaves the array alone). For every call on a state reachable with private windows and every byte `i` below the new
+    logical size (for a copy: source inside the file), a one-byte read after the call returns the two-layer view, and it differs from
+    the flat expectation **iff** `diverges st op i`:
+    * write / truncate / ensure_size: `i` was held in the overlay of a private window whose length this size change alters (so
+      the window is mapped anew and its overlay dropped), `i` is not overwritten by this very write, and the dropped overlay
+      byte differed from the file byte beneath it;
+    * remove_mmap: the same for the overlay of the removed window;
+    * copy that goes through the file (not the mapped branch of `_exfile_copy`): a destination byte held in an overlay keeps its
+      overlay value although readers saw something else at the source; any other destination byte receives the *file* byte of
+      the source although readers saw an overlay byte there;
+    * read, add_mmap, store through a mapping, mapped copy, remap_all: never. -/
+theorem private_diverges_iff (st : St) (op : Op) (i : Nat) (h : PInv st) (hc : 0 < st.cbuf)
+    (hsrc : ∀ off siz noff, op = .copy off siz noff → off + siz ≤ st.fsize)
+    (hi' : i < (exec st op).1.fsize) (hb : (i : Int) + 1 ≤ offTMax) :
+    read (exec st op).1 i 1 = (.ok, [view (exec st op).1.psize (exec st op).1.file (exec st op).1.slots i]) ∧
+    (view (exec st op).1.psize (exec st op).1.file (exec st op).1.slots i ≠
+        expect st op (view st.psize st.file st.slots) i ↔ diverges st op i) := by
+  have hP := exec_PInv st op h
+  exact ⟨read_one _ i hP.win hP.disk hi' hb, view_diverges_iff st op i h hc hsrc hi'⟩
+
+/-- with shared windows only nothing diverges (consistent with `shared_refines_flat`), and the view is the file -/
+theorem shared_never_diverges (st : St) (op : Op) (i : Nat) (hs : AllShared st.slots) :
+    ¬ diverges st op i ∧ view st.psize st.file st.slots i = st.file.getD i 0 :=
+  ⟨shared_not_diverges st op i hs, view_shared _ _ _ _ hs⟩
+
 /-- **Private windows, the part that holds.** A write that lies inside the mapped part of the first window
     (the layout iwkv uses: one window from offset 0) and needs no growth is read back exactly by a read of the
     same range — for a private window (page-granular copy-on-write overlay) as well as for a shared one,
@@ -225,5 +441,21 @@ example : SizeInv ({ psize := 4096, cbuf := 4096 } : St) ∧ AllShared ({ psize 
 example : Inv ({ psize := 4, cbuf := 4 } : St) ∧
     CopiesInside ({ psize := 4, cbuf := 4 } : St) [.write 0 [1, 2, 3, 4, 5], .copy 0 2 4, .truncate 4] :=
   ⟨⟨rfl, by simp⟩, by simp [CopiesInside]; decide⟩
+
+/-- non-vacuity of the private-window theorems: the witness states satisfy `PInv` -/
+example : PInv witness ∧ PInv witness2 := by
+  refine ⟨⟨⟨by decide, by decide, by decide⟩, ⟨by simp [witness], by simp [witness]; decide⟩, by simp [witness, AInv], by decide⟩,
+          ⟨⟨by decide, by decide, by decide⟩, ⟨by simp [witness2], by simp [witness2]; decide⟩, by simp [witness2, AInv], by decide⟩⟩
+
+/-- `diverges` holds on the three shapes of finding C12-PRIV (growth re-maps the window, the window is removed, a copy goes
+    through the file), at the byte written through the private window -/
+example :
+    diverges (run witness [.write 0 [9]]).1 (.ensure 5) 0 ∧
+    diverges (run witness [.write 0 [9]]).1 (.removeMmap 0) 0 ∧
+    diverges (run witness2 [.write 4 [9]]).1 (.copy 4 1 0) 0 := by
+  refine ⟨?_, ?_, ?_⟩
+  · simp only [diverges]; decide
+  · simp only [diverges]; decide
+  · simp only [diverges]; decide
 
 end IwModel.C12
